@@ -500,7 +500,7 @@ class Interp(ExprMixin):
                     args.extend(v.items)        # f(*known_sequence)
                     continue
                 unknown_star.append((len(args), v))
-                args.append(v)
+                args.append(self.eval(a, st))       # starred(v): stays marked unless its length can be inferred below
                 continue
             args.append(self.eval(a, st))
         if len(unknown_star) == 1 and not any(k.arg is None for k in node.keywords) and isinstance(unknown_star[0][1], Poly):
